@@ -602,6 +602,16 @@ func (b *build) run() {
 	unlock, lock := b.program()
 	b.tx.Inputs[b.idx].UnlockingScript = bscript.NewFromBytes(append([]byte{}, unlock...))
 	lockS := bscript.NewFromBytes(append([]byte{}, lock...))
+	if txCounter%2 == 0 {
+		// what an earlier Execute, tx.From or the extended format left on the input is not what is being
+		// spent now: the previous output handed to this call decides
+		in := b.tx.Inputs[b.idx]
+		in.PreviousTxSatoshis = b.sats ^ 0x5a5a
+		if in.PreviousTxSatoshis == 0 {
+			in.PreviousTxSatoshis = 7
+		}
+		in.PreviousTxScript = bscript.NewFromBytes([]byte{0x51, 0xac})
+	}
 	rec := newTableRec(b.tx, b.idx)
 	var err error
 	panicked, msg := common.Safely(func() {
@@ -858,6 +868,50 @@ func familySeparators(r *common.Rand) {
 				continue
 			}
 			b.run()
+		}
+	}
+	// multisig and checksig on either side of a code separator, and two multisigs: each signature over
+	// its own script code; the operations must not disturb the script the later ones run and hash
+	//   <sig2> <dummy> <sig1> | 1 <pk1> 1 CHECKMULTISIGVERIFY CODESEPARATOR <pk2> CHECKSIG NOP
+	//   <dummy> <sig1> <sig2> | <pk2> CHECKSIGVERIFY CODESEPARATOR 1 <pk1> 1 CHECKMULTISIG NOP
+	//   <dummy> <sig2> <dummy> <sig1> | 1 <pk1> 1 CHECKMULTISIGVERIFY CODESEPARATOR NOP CODESEPARATOR 1 <pk2> 1 CHECKMULTISIG
+	for mi, f := range modes {
+		for era := 0; era < 2; era++ {
+			for shape := 0; shape < 3; shape++ {
+				for sw := 0; sw < 2; sw++ {
+					flags := f
+					if era == 1 {
+						flags |= sp.FGenesis
+					}
+					b := newBuild(r, fmt.Sprintf("separator/multisig-mix-%d", shape), flags, 2)
+					ht := matchingType(flags, mi+shape)
+					s1 := b.addSig(sigReq{Signer: 0, HT: ht})
+					s2 := b.addSig(sigReq{Signer: 1, HT: ht, WrongCode: sw == 1})
+					pk1, pk2 := b.keys[0].Enc(0), b.keys[1].Enc(1)
+					dummy := sp.P([]byte{})
+					switch shape {
+					case 0:
+						b.scripts[0] = []sp.Op{sp.SigSlot(s2, nil, nil, 0), dummy, sp.SigSlot(s1, nil, nil, 0)}
+						b.scripts[1] = []sp.Op{sp.Num(1), sp.P(pk1), sp.Num(1), sp.O(0xaf), sp.Sep(true), sp.P(pk2), sp.O(0xac), sp.O(0x61)}
+						b.ops = []sigOp{{script: 1, at: 3, slots: []int{s1}, keys: [][]byte{pk1}, multi: true, verify: true, dummy: []byte{}},
+							{script: 1, at: 6, slots: []int{s2}, keys: [][]byte{pk2}}}
+					case 1:
+						b.scripts[0] = []sp.Op{dummy, sp.SigSlot(s2, nil, nil, 0), sp.SigSlot(s1, nil, nil, 0)}
+						b.scripts[1] = []sp.Op{sp.P(pk1), sp.O(0xad), sp.Sep(true), sp.Num(1), sp.P(pk2), sp.Num(1), sp.O(0xae), sp.O(0x61)}
+						b.ops = []sigOp{{script: 1, at: 1, slots: []int{s1}, keys: [][]byte{pk1}, verify: true},
+							{script: 1, at: 6, slots: []int{s2}, keys: [][]byte{pk2}, multi: true, dummy: []byte{}}}
+					default:
+						b.scripts[0] = []sp.Op{dummy, sp.SigSlot(s2, nil, nil, 0), dummy, sp.SigSlot(s1, nil, nil, 0)}
+						b.scripts[1] = []sp.Op{sp.Num(1), sp.P(pk1), sp.Num(1), sp.O(0xaf), sp.Sep(true), sp.O(0x61), sp.Sep(true), sp.Num(1), sp.P(pk2), sp.Num(1), sp.O(0xae)}
+						b.ops = []sigOp{{script: 1, at: 3, slots: []int{s1}, keys: [][]byte{pk1}, multi: true, verify: true, dummy: []byte{}},
+							{script: 1, at: 10, slots: []int{s2}, keys: [][]byte{pk2}, multi: true, dummy: []byte{}}}
+					}
+					if sw == 1 && bytes.Equal(b.specDigest(&b.ops[1], s2, true), b.specDigest(&b.ops[1], s2, false)) {
+						continue
+					}
+					b.run()
+				}
+			}
 		}
 	}
 }
